@@ -124,7 +124,7 @@ def run_case(case):
     def cli(argv, password=None, cwd=work):
         res["evals"] += 1
         st, out, err = run_cli(py7zr, argv, cwd, password)
-        log.append((list(argv), st))
+        log.append(([a.replace(scratch, "$S") if isinstance(a, str) else a for a in argv], st))
         return st, out, err
 
     try:
